@@ -67,6 +67,8 @@ type History struct {
 	Pits []int64 `json:"pits"`
 	// address patterns for the listings filtered by account / source / destination / address (empty segment = any)
 	Patterns []string `json:"patterns,omitempty"`
+	// metadata filters (key, value) for the listings, with and without a point in time
+	MetaFilters [][2]string `json:"metaFilters,omitempty"`
 }
 
 // ---- generator ---------------------------------------------------------------------------------------------------------
@@ -282,6 +284,9 @@ func genHistory(g *vx.Rng, maxLogs int) History {
 		}
 		h.Patterns = append(h.Patterns, strings.Join(segs, ":"))
 	}
+	for i := 0; i < 2; i++ {
+		h.MetaFilters = append(h.MetaFilters, [2]string{uKeys[pg.Intn(len(uKeys))], uValues[pg.Intn(len(uValues))]})
+	}
 	return h
 }
 
@@ -361,14 +366,23 @@ func main() {
 		if err := json.Unmarshal(d, &h); err != nil || len(h.Logs) == 0 {
 			// a replay of a listing difference wraps the history and names the pattern; one of the SQL-text check has no history
 			var w struct {
-				History History `json:"history"`
-				Pattern string  `json:"pattern"`
+				History    History    `json:"history"`
+				Pattern    string     `json:"pattern"`
+				MetaFilter *[2]string `json:"metaFilter"`
+				Pit        *int64     `json:"pit"`
 			}
 			if json.Unmarshal(d, &w) != nil || len(w.History.Logs) == 0 {
 				continue
 			}
 			h = w.History
-			h.Patterns = append([]string{w.Pattern}, h.Patterns...)
+			if w.MetaFilter != nil {
+				h.MetaFilters = append([][2]string{*w.MetaFilter}, h.MetaFilters...)
+				if w.Pit != nil {
+					h.Pits = append([]int64{*w.Pit}, h.Pits...)
+				}
+			} else {
+				h.Patterns = append([]string{w.Pattern}, h.Patterns...)
+			}
 		}
 		runHistory(r, eng, h, "corpus")
 	}
